@@ -66,6 +66,13 @@ func runRetCase(c *h.Ctx, r *h.Report, cs retCase) {
 			panic(err)
 		}
 		seqs, _ := mercure.VerifBoltKeys(t)
+		if ks, vs := mercure.VerifBoltValueIDs(t); len(ks) == len(vs) {
+			for j := range ks {
+				if ks[j] != vs[j] {
+					r.Violate(h.Violation{Key: "C10:stored-value-is-not-the-accepted-update", What: fmt.Sprintf("entry with key id %q holds a value whose id is %q", ks[j], vs[j]), Replay: map[string]any{"family": "retention", "case": cs}})
+				}
+			}
+		}
 		r.Evaluations++
 		lines = append(lines, h.Line("ret.pub", h.Hex(id), joinU(seqs)))
 		impl = append(impl, "ok")
